@@ -804,6 +804,11 @@ func ServerCheck(sc sim.Scenario, h *sim.History, opt ServerOptions) []Problem {
 						add("C03/later-request-delayed", "%d request(s) of started records have not begun although an earlier call is merely still running and only %d of %d slots are in use", waiting, running, limit)
 					} else {
 						add("C06/not-work-conserving", "%d dispatched request(s) have not started although only %d of %d slots are in use", waiting, running, limit)
+						if earlierCallRunning {
+							// the same fact read as C03's last clause: below the limit, a call
+							// that is merely still running holds back requests that came later
+							add("C03/later-request-waits-below-limit", "%d request(s) of started records have not begun although only %d of %d slots are in use and nothing but still-running earlier calls precede them", waiting, running, limit)
+						}
 					}
 				}
 			}
